@@ -34,7 +34,7 @@ type C struct {
 var ErrTimeout = errors.New("rawc: timeout waiting for a reply")
 
 func New(conn net.Conn) *C {
-	c := &C{Conn: conn, Timeout: 10 * time.Second, frames: make(chan []byte, 1024), Msize: 8192}
+	c := &C{Conn: conn, Timeout: 30 * time.Second, frames: make(chan []byte, 1024), Msize: 8192}
 	go c.reader()
 	return c
 }
